@@ -4,7 +4,7 @@
    assignment = with_ in place, update = iterated assignment). *)
 From Coq Require Import List ZArith Bool Arith Lia.
 From SC Require Import Base.Res Base.PyList Inst.Heap Inst.ClassTable Inst.Model Inst.Canon
-  Inst.Abs Inst.SpecHelpers Inst.ElemProofs.
+  Inst.Abs Inst.SpecHelpers Inst.ElemProofs Inst.Framed.
 Import ListNotations.
 Open Scope nat_scope.
 
@@ -82,6 +82,9 @@ Proof. unfold check_typeM. reads_tac. Qed.
 Lemma exec_S ct f k : exec ct (S f) k = body ct (exec ct f) k.
 Proof. reflexivity. Qed.
 Lemma XFUEL_S : XFUEL = S 39.
+Proof. reflexivity. Qed.
+(* always rewrite with this lemma: never let the kernel convert `absv` into `abs (S 23)` by itself *)
+Lemma absv_unfold h v : absv h v = abs (S 23) h v.
 Proof. reflexivity. Qed.
 
 Lemma thawed_false {A} ct l (m : M A) s c d k :
@@ -470,3 +473,592 @@ Section Records.
         * apply IH. intro F. apply E. simpl. auto.
   Qed.
 End Records.
+
+(* ------------------------------------------------------------------ *)
+(** * Acyclic graphs: a cell is not reachable from what it refers to *)
+
+Fixpoint asize (a : aval) : nat :=
+  match a with
+  | AList xs => S ((fix go (l : list aval) : nat := match l with [] => 0 | x :: t => asize x + go t end) xs)
+  | ASet xs => S ((fix go (l : list aval) : nat := match l with [] => 0 | x :: t => asize x + go t end) xs)
+  | ADict kvs => S ((fix go (l : list (aval * aval)) : nat :=
+                       match l with [] => 0 | p :: t => asize (fst p) + asize (snd p) + go t end) kvs)
+  | AInst _ d => S ((fix go (l : list (aid * aval)) : nat :=
+                       match l with [] => 0 | p :: t => asize (snd p) + go t end) d)
+  | _ => 1
+  end.
+
+Definition sum_sizes (l : list aval) : nat := fold_right (fun x n => asize x + n) 0 l.
+
+Lemma asize_list xs : asize (AList xs) = S (sum_sizes xs).
+Proof. reflexivity. Qed.
+Lemma asize_set xs : asize (ASet xs) = S (sum_sizes xs).
+Proof. reflexivity. Qed.
+Lemma asize_dict kvs : asize (ADict kvs) = S (sum_sizes (flat_map (fun p => [fst p; snd p]) kvs)).
+Proof.
+  change (asize (ADict kvs)) with
+    (S ((fix go (l : list (aval * aval)) : nat :=
+           match l with [] => 0 | p :: t => asize (fst p) + asize (snd p) + go t end) kvs)).
+  f_equal. induction kvs as [|p kvs IH]; [reflexivity|]. rewrite IH. simpl. lia.
+Qed.
+Lemma asize_inst c d : asize (AInst c d) = S (sum_sizes (map snd d)).
+Proof.
+  change (asize (AInst c d)) with
+    (S ((fix go (l : list (aid * aval)) : nat := match l with [] => 0 | p :: t => asize (snd p) + go t end) d)).
+  f_equal. induction d as [|p d IH]; [reflexivity|]. rewrite IH. reflexivity.
+Qed.
+
+Lemma sum_sizes_in x l : In x l -> asize x <= sum_sizes l.
+Proof. induction l as [|y l IH]; simpl; [tauto|]. intros [->|H]; [lia|]. specialize (IH H). lia. Qed.
+
+Lemma aok_list xs x : aok (AList xs) = true -> In x xs -> aok x = true.
+Proof. simpl. rewrite forallb_forall. auto. Qed.
+
+Section Indep.
+  Variable h : list obj.
+  Variable l : loc.
+  Variable o : obj.
+  Variable N : nat.
+
+  Lemma abs_indep_size : forall m w, m <= N ->
+    aok (abs m h w) = true -> asize (abs m h w) < asize (abs N h (VRef l)) ->
+    abs m (set_nth l o h) w = abs m h w.
+  Proof.
+    induction m as [|m IH]; intros w Hm Hok Hsz.
+    - destruct w; reflexivity.
+    - destruct w as [| | | | | | | |l']; try reflexivity.
+      destruct (Nat.eq_dec l' l) as [->|Hne].
+      + exfalso. replace N with ((N - S m) + S m) in Hsz at 1 by lia.
+        rewrite aok_mono_le in Hsz by exact Hok. lia.
+      + cbn [abs] in *. rewrite set_nth_other by auto.
+        destruct (nth_error h l') as [[xs|kvs|xs|c d]|]; auto.
+        * f_equal. apply map_ext_in. intros x Hx. apply IH; [lia| |].
+          -- eapply aok_list; eauto. now apply in_map.
+          -- rewrite asize_list in Hsz. pose proof (sum_sizes_in (abs m h x) _ (in_map _ _ _ Hx)). lia.
+        * f_equal. apply map_ext_in. intros p Hp.
+          simpl in Hok. rewrite forallb_forall in Hok. specialize (Hok _ (in_map _ _ _ Hp)). simpl in Hok.
+          apply andb_true_iff in Hok. destruct Hok as [Ok1 Ok2].
+          rewrite asize_dict in Hsz.
+          assert (In (abs m h (fst p)) (flat_map (fun q => [fst q; snd q]) (map (fun q => (abs m h (fst q), abs m h (snd q))) kvs)))
+            by (apply in_flat_map; exists (abs m h (fst p), abs m h (snd p)); split; [now apply (in_map (fun q => (abs m h (fst q), abs m h (snd q))))|simpl; auto]).
+          assert (In (abs m h (snd p)) (flat_map (fun q => [fst q; snd q]) (map (fun q => (abs m h (fst q), abs m h (snd q))) kvs)))
+            by (apply in_flat_map; exists (abs m h (fst p), abs m h (snd p)); split; [now apply (in_map (fun q => (abs m h (fst q), abs m h (snd q))))|simpl; auto]).
+          pose proof (sum_sizes_in _ _ H). pose proof (sum_sizes_in _ _ H0).
+          f_equal; apply IH; auto; lia.
+        * f_equal. apply map_ext_in. intros x Hx. apply IH; [lia| |].
+          -- simpl in Hok. rewrite forallb_forall in Hok. apply Hok. now apply in_map.
+          -- rewrite asize_set in Hsz. pose proof (sum_sizes_in (abs m h x) _ (in_map _ _ _ Hx)). lia.
+        * f_equal. apply map_ext_in. intros p Hp. f_equal. apply IH; [lia| |].
+          -- simpl in Hok. rewrite forallb_forall in Hok. apply (Hok _ (in_map _ _ _ Hp)).
+          -- rewrite asize_inst in Hsz.
+             assert (In (abs m h (snd p)) (map snd (map (fun q => (fst q, abs m h (snd q))) (sorted_fields d))))
+               by (rewrite map_map; simpl; now apply (in_map (fun q => abs m h (snd q)))).
+             pose proof (sum_sizes_in _ _ H). lia.
+  Qed.
+End Indep.
+
+(* what an instance refers to does not reach the instance (in an acyclic graph) *)
+Lemma abs_indep_field h l c d n o a w :
+  nth_error h l = Some (OInst c d) -> aok (abs (S n) h (VRef l)) = true -> In (a, w) d ->
+  abs n (set_nth l o h) w = abs n h w.
+Proof.
+  intros Hl Hok Hin. apply (abs_indep_size h l o (S n) n w); [lia| |].
+  - cbn [abs] in Hok. rewrite Hl in Hok. simpl in Hok. rewrite forallb_forall in Hok.
+    assert (In (a, abs n h w) (map (fun p => (fst p, abs n h (snd p))) (sorted_fields d))).
+    { apply (in_map (fun p => (fst p, abs n h (snd p))) _ (a, w)). unfold sorted_fields. now apply In_sort_by. }
+    apply (Hok _ H).
+  - cbn [abs]. rewrite Hl, asize_inst.
+    assert (In (abs n h w) (map snd (map (fun p => (fst p, abs n h (snd p))) (sorted_fields d)))).
+    { rewrite map_map. simpl. apply (in_map (fun p => abs n h (snd p)) _ (a, w)). unfold sorted_fields. now apply In_sort_by. }
+    pose proof (sum_sizes_in _ _ H). lia.
+Qed.
+
+(* ------------------------------------------------------------------ *)
+(** * Writing one attribute of an instance, abstractly *)
+
+Lemma assoc_fset k a v (l : list (aid * aval)) :
+  assoc k (fset a v l) = if a =? k then Some v else assoc k l.
+Proof.
+  induction l as [|[b w] l IH]; simpl.
+  - rewrite assoc_cons. reflexivity.
+  - destruct (a =? b) eqn:E1.
+    + apply Nat.eqb_eq in E1. subst b. rewrite !assoc_cons. simpl. destruct (a =? k); reflexivity.
+    + destruct (a <? b) eqn:E2.
+      * rewrite assoc_cons. reflexivity.
+      * rewrite !assoc_cons, IH. simpl. destruct (b =? k) eqn:E3; auto.
+        destruct (a =? k) eqn:E4; auto. apply Nat.eqb_eq in E3. apply Nat.eqb_eq in E4.
+        apply Nat.eqb_neq in E1. congruence.
+Qed.
+
+Lemma in_fset q a v (l : list (aid * aval)) : In q (fset a v l) -> q = (a, v) \/ In q l.
+Proof.
+  induction l as [|[b w] l IH]; simpl; [intros [<-|[]]; auto|].
+  destruct (a =? b); [simpl; intros [<-|H]; auto|]. destruct (a <? b); simpl; [intros [<-|[<-|H]]; auto|].
+  intros [<-|H]; auto. destruct (IH H); auto.
+Qed.
+
+Lemma ssorted_fset a v (l : list (aid * aval)) : ssorted l -> ssorted (fset a v l).
+Proof.
+  induction l as [|[b w] l IH]; intro S; simpl.
+  - split; [intros q []|exact I].
+  - destruct S as [Sb S]. destruct (a =? b) eqn:E1.
+    + apply Nat.eqb_eq in E1. subst b. split; auto.
+    + destruct (a <? b) eqn:E2.
+      * apply Nat.ltb_lt in E2. split; [|split; auto].
+        intros q [<-|Hq]; simpl; auto. specialize (Sb q Hq). simpl in Sb. lia.
+      * apply Nat.ltb_ge in E2. apply Nat.eqb_neq in E1. split; auto.
+        intros q Hq. apply in_fset in Hq. destruct Hq as [->|Hq]; simpl; [lia|auto].
+Qed.
+
+Section MapFields.
+  Context {V W : Type} (g : V -> W).
+  Notation G := (fun p : nat * V => (fst p, g (snd p))).
+
+  Lemma assoc_map_fields k (l : list (nat * V)) : assoc k (map G l) = option_map g (assoc k l).
+  Proof.
+    induction l as [|p l IH]; [reflexivity|]. simpl. rewrite !assoc_cons. simpl.
+    destruct (fst p =? k); auto.
+  Qed.
+
+  Lemma ssorted_map_fields (l : list (nat * V)) : ssorted l -> ssorted (map G l).
+  Proof.
+    induction l as [|p l IH]; simpl; auto. intros [Sp S]. split; auto.
+    intros q Hq. apply in_map_iff in Hq. destruct Hq as [r [<- Hr]]. simpl. auto.
+  Qed.
+End MapFields.
+
+Lemma in_assoc_set {V} (q : nat * V) a v l : In q (assoc_set a v l) -> q = (a, v) \/ In q l.
+Proof.
+  unfold assoc_set. destruct (existsb _ l).
+  - intro H. apply in_map_iff in H. destruct H as [p [E Hp]]. destruct (fst p =? a); subst; auto.
+  - rewrite in_app_iff. simpl. intros [H|[<-|[]]]; auto.
+Qed.
+
+Lemma sorted_fields_props (d : list (aid * val)) : NoDup (map fst d) ->
+  ssorted (sorted_fields d) /\ (forall k, assoc k (sorted_fields d) = assoc k d).
+Proof. intro H. destruct (sort_by_props d H) as [S [A _]]. split; auto. Qed.
+
+Lemma abs_inst h l c d n :
+  nth_error h l = Some (OInst c d) ->
+  abs (S n) h (VRef l) = AInst c (map (fun p => (fst p, abs n h (snd p))) (sorted_fields d)).
+Proof. intro H. cbn [abs]. now rewrite H. Qed.
+
+Lemma nth_error_set_nth_same {A} n (x : A) l : n < length l -> nth_error (set_nth n x l) n = Some x.
+Proof. revert n; induction l as [|y l IH]; intros [|n] H; simpl in *; try lia; auto. apply IH. lia. Qed.
+
+(* the instance after `raw_setattr l a v`, provided the graph is acyclic and
+   the new value does not reach the instance *)
+Lemma abs_inst_update h l c d n a v :
+  nth_error h l = Some (OInst c d) -> NoDup (map fst d) ->
+  aok (abs (S n) h (VRef l)) = true ->
+  (forall o, abs n (set_nth l o h) v = abs n h v) ->
+  abs (S n) (set_nth l (OInst c (assoc_set a v d)) h) (VRef l) =
+  AInst c (fset a (abs n h v) (map (fun p => (fst p, abs n h (snd p))) (sorted_fields d))).
+Proof.
+  intros Hl Hd Hok Hv.
+  assert (Hlen : l < length h) by (apply nth_error_Some; congruence).
+  rewrite (abs_inst _ l c (assoc_set a v d)) by (now apply nth_error_set_nth_same).
+  f_equal.
+  transitivity (map (fun p => (fst p, abs n h (snd p))) (sorted_fields (assoc_set a v d))).
+  - apply map_ext_in. intros [b w] Hb. simpl. f_equal.
+    unfold sorted_fields in Hb. apply In_sort_by in Hb. apply in_assoc_set in Hb.
+    destruct Hb as [E|Hb]; [inversion E; subst; apply Hv|].
+    eapply abs_indep_field; eauto.
+  - pose proof (nodup_assoc_set a v d Hd) as Hd'.
+    destruct (sorted_fields_props d Hd) as [S A]. destruct (sorted_fields_props _ Hd') as [S' A'].
+    apply ssorted_ext.
+    + now apply ssorted_map_fields.
+    + apply ssorted_fset. now apply ssorted_map_fields.
+    + intro k. rewrite assoc_fset, !assoc_map_fields, A', A, assoc_assoc_set.
+      destruct (a =? k); reflexivity.
+Qed.
+
+(* ------------------------------------------------------------------ *)
+(** * Running the model: the in-place store *)
+
+Definition upd (s : state) (l : loc) (o : obj) : state :=
+  mkst (set_nth l o (heap s)) (ncalls s) (fail_at s).
+
+(* classes without invalidation *)
+Definition no_inval (k : cls) : Prop := forall sp, In sp (c_attrs k) -> a_inv_by sp = [].
+
+Lemma dependants_none k x : no_inval k -> dependants k x = [].
+Proof.
+  intro H. unfold dependants. unfold no_inval in H. revert H. generalize (c_attrs k). intro l.
+  induction l as [|sp l IH]; intro H; simpl; auto.
+  rewrite (H sp) by (simpl; auto). simpl. apply IH. intros; apply H; simpl; auto.
+Qed.
+
+Lemma inv_closure_none k a : no_inval k -> forall fuel, inv_closure fuel k [a] [a] = [a].
+Proof.
+  intros H fuel. destruct fuel as [|f]; [reflexivity|]. simpl. rewrite dependants_none by auto. simpl.
+  destruct f; reflexivity.
+Qed.
+
+Lemma iterM_ret_tt {A} (f : A -> M unit) l s : (forall x, In x l -> f x = ret tt) -> iterM f l s = (Ok tt, s).
+Proof.
+  induction l as [|x l IH]; intro H; simpl; [reflexivity|].
+  rewrite (H x) by (simpl; auto). rewrite bind_ret. apply IH. intros; apply H; simpl; auto.
+Qed.
+
+Section RunStore.
+  Variable ct : ctable.
+  Variable rec : call -> M val.
+
+  Lemma invalidate_attrs_none l a s c d k :
+    nth_error (heap s) l = Some (OInst c d) -> lookup_cls ct c = Some k -> no_inval k ->
+    invalidate_attrs ct rec l a s = (Ok tt, s).
+  Proof.
+    intros Hl Hc Hn. unfold invalidate_attrs.
+    rewrite (bind_ok _ _ _ _ _ (read_inst_at l s c d Hl)). cbn [fst].
+    rewrite (bind_ok _ _ _ _ _ (cls_of_at ct c s k Hc)).
+    rewrite inv_closure_none by auto.
+    apply iterM_ret_tt. intros sp _. simpl.
+    destruct (a =? a_name sp) eqn:E; simpl; auto.
+    apply Nat.eqb_eq in E. subst a. now rewrite Nat.eqb_refl.
+  Qed.
+
+  Lemma raw_setattr_at l a v s c d :
+    nth_error (heap s) l = Some (OInst c d) ->
+    raw_setattr l a v s = (Ok tt, upd s l (OInst c (assoc_set a v d))).
+  Proof.
+    intro Hl. unfold raw_setattr. rewrite (bind_ok _ _ _ _ _ (read_inst_at l s c d Hl)). cbn [fst snd].
+    unfold write. assert (l <? length (heap s) = true) as ->; [|reflexivity].
+    apply Nat.ltb_lt. apply nth_error_Some. congruence.
+  Qed.
+
+  Lemma upd_at s l o : l < length (heap s) -> nth_error (heap (upd s l o)) l = Some o.
+  Proof. intro H. unfold upd. simpl. now apply nth_error_set_nth_same. Qed.
+
+  (* mutate_attr(obj, a, v, inplace=True) on an unfrozen instance of a class without invalidation *)
+  Lemma mutate_attr_inplace_run l a v tc s c d k :
+    nth_error (heap s) l = Some (OInst c d) -> lookup_cls ct c = Some k -> c_frozen k = false ->
+    is_sentinel v = false -> no_inval k ->
+    mutate_attr ct rec l a v true tc false false s =
+    match (if tc then match lookup_attr k a with
+                      | Some sp => check_type FUEL ct (heap s) v (a_ty sp)
+                      | None => true end
+           else true) with
+    | true => (Ok (VRef l), upd s l (OInst c (assoc_set a v d)))
+    | false => (Err TypeErr, s)
+    end.
+  Proof.
+    intros Hl Hc Hf Hs Hn. unfold mutate_attr. rewrite Hs.
+    rewrite (bind_ok _ _ _ _ _ (read_inst_at l s c d Hl)). cbn [fst snd].
+    rewrite (bind_ok _ _ _ _ _ (cls_of_at ct c s k Hc)).
+    rewrite Hf, andb_false_r. rewrite bind_ret.
+    assert (Hlen : l < length (heap s)) by (apply nth_error_Some; congruence).
+    assert (Hstore : forall s0, s0 = s ->
+      (l' <- (if negb (true || c_dnc k) then v0 <- deepcopy ct (VRef l);; loc_of v0 else ret l);;
+       value <- (if negb (true || c_dnc k) && same_object (assoc a d) v
+                 then p' <- read_inst l';; ret match assoc a (snd p') with Some v' => v' | None => v end
+                 else ret v);;
+       thawed ct l' (negb (true || c_dnc k))
+         (raw_setattr l' a value;;; (if false then ret tt else invalidate_attrs ct rec l' a));;;
+       ret (VRef l')) s0 = (Ok (VRef l), upd s l (OInst c (assoc_set a v d)))).
+    { intros s0 ->. cbn [orb negb andb]. rewrite !bind_ret.
+      unfold bind at 1. rewrite (thawed_false ct l _ s c d k Hl Hc).
+      rewrite (bind_ok _ _ _ _ _ (raw_setattr_at l a v s c d Hl)).
+      rewrite (invalidate_attrs_none l a _ c (assoc_set a v d) k); auto.
+      now apply upd_at. }
+    destruct tc.
+    - destruct (lookup_attr k a) as [sp|].
+      + rewrite bind_assoc.
+        rewrite (bind_ok (check_typeM ct v (a_ty sp)) _ s (check_type FUEL ct (heap s) v (a_ty sp)) s eq_refl).
+        destruct (check_type FUEL ct (heap s) v (a_ty sp)).
+        * rewrite bind_ret. now apply Hstore.
+        * reflexivity.
+      + rewrite bind_ret. now apply Hstore.
+    - destruct (lookup_attr k a); rewrite bind_ret; now apply Hstore.
+  Qed.
+End RunStore.
+
+(* ------------------------------------------------------------------ *)
+(** * Scalars: type check, pure functions, the value procedure *)
+
+Definition nonref (v : val) : bool := match v with VRef _ => false | _ => true end.
+(* a proper scalar: not a reference, not a sentinel *)
+Definition vscalar (v : val) : bool :=
+  match v with VRef _ | VMissing | VEmpty | VUnchanged => false | _ => true end.
+
+Fixpoint ty_depth (t : ty) : nat :=
+  match t with
+  | TOpt t' => S (ty_depth t')
+  | TUnion a b => S (Nat.max (ty_depth a) (ty_depth b))
+  | TList t' => S (ty_depth t') | TSet t' => S (ty_depth t')
+  | TDict a b => S (Nat.max (ty_depth a) (ty_depth b))
+  | _ => 0
+  end.
+
+Lemma check_type_nonref ct h v : nonref v = true ->
+  forall t f, ty_depth t < f -> check_type f ct h v t = conforms ct t (abs0 v).
+Proof.
+  intros Hv t. induction t; intros [|f] Hd; try lia; simpl in Hd; simpl;
+    try (destruct v; simpl in *; try discriminate; reflexivity).
+  - rewrite IHt by lia. destruct v; simpl in *; try discriminate; reflexivity.
+  - rewrite IHt1, IHt2 by lia. reflexivity.
+Qed.
+
+Lemma abs_nonref_eq n h v : nonref v = true -> abs n h v = abs0 v.
+Proof. intro H. apply abs_nonref. destruct v; simpl in *; auto; discriminate. Qed.
+
+Lemma vscalar_nonref v : vscalar v = true -> nonref v = true.
+Proof. destruct v; simpl; auto. Qed.
+
+(* the pure functions of the pool that map scalars to scalars *)
+Definition scalar_fn (f : fn) : bool :=
+  match f with
+  | FId | FAddInt _ => true
+  | FConst c => vscalar c
+  | _ => false
+  end.
+
+Definition ticked (s : state) : state := mkst (heap s) (S (ncalls s)) (fail_at s).
+
+Lemma tick_run s : fail_at s = None -> tick s = (Ok tt, ticked s).
+Proof. intro H. unfold tick, ticked. now rewrite H. Qed.
+
+Lemma apply_fn_scalar f v s : fail_at s = None -> scalar_fn f = true -> vscalar v = true ->
+  match afn f (abs0 v) with
+  | SOk a => exists v', apply_fn f v s = (Ok v', ticked s) /\ a = abs0 v' /\ vscalar v' = true
+  | SErr e => apply_fn f v s = (Err e, ticked s)
+  | _ => False
+  end.
+Proof.
+  intros Hs Hf Hv. unfold apply_fn. rewrite (bind_ok _ _ _ _ _ (tick_run s Hs)).
+  destruct f; simpl in Hf; try discriminate.
+  - simpl. exists v. repeat split; auto.
+  - destruct v; simpl in *; try discriminate; try reflexivity; eexists; repeat split.
+  - destruct v0; simpl in *; try discriminate; eexists; repeat split.
+Qed.
+
+Section ValueProc.
+  Variable ct : ctable.
+  Variable rec : call -> M val.
+
+  (* steps 3-8 do nothing to a proper scalar when there are no keywords and no transforms *)
+  Lemma mutate_value_scalar old new replace ctor ety inp s :
+    vscalar new = true ->
+    mutate_value ct rec (mkmv old new replace PNone None (Some ctor) (Some ety) None [] inp) s = (Ok new, s).
+  Proof. intro H. destruct new; simpl in H; try discriminate; reflexivity. Qed.
+
+  Lemma mutate_value_scalar_prep old new replace f ctor ety inp s :
+    fail_at s = None -> scalar_fn f = true -> vscalar new = true ->
+    match afn f (abs0 new) with
+    | SOk a => exists v', mutate_value ct rec (mkmv old new replace (PAttr f) None (Some ctor) (Some ety) None [] inp) s
+                          = (Ok v', ticked s) /\ a = abs0 v' /\ vscalar v' = true
+    | SErr e => mutate_value ct rec (mkmv old new replace (PAttr f) None (Some ctor) (Some ety) None [] inp) s
+                = (Err e, ticked s)
+    | _ => False
+    end.
+  Proof.
+    intros Hs Hf Hv. pose proof (apply_fn_scalar f new s Hs Hf Hv) as H.
+    destruct (afn f (abs0 new)) as [a|e| |]; auto.
+    - destruct H as [v' [H1 [H2 H3]]]. exists v'. split; auto.
+      assert (E : mutate_value ct rec (mkmv old new replace (PAttr f) None (Some ctor) (Some ety) None [] inp) s =
+                  bind (apply_fn f new) (fun value1 =>
+                    mutate_value ct rec (mkmv old value1 replace PNone None (Some ctor) (Some ety) None [] inp)) s).
+      { destruct new; simpl in Hv; try discriminate; unfold mutate_value; cbn [mv_new]; unfold mutate_value_body;
+          cbn [mv_new mv_old mv_replace mv_prepare is_missing negb andb orb];
+          rewrite (bind_ok _ _ _ _ _ H1); rewrite (bind_ok _ _ _ _ _ H1);
+          destruct v'; simpl in H3; try discriminate; reflexivity. }
+      rewrite E, (bind_ok _ _ _ _ _ H1). now apply mutate_value_scalar.
+    - destruct new; simpl in Hv; try discriminate; unfold mutate_value; cbn [mv_new]; unfold mutate_value_body;
+        cbn [mv_new mv_old mv_replace mv_prepare is_missing negb andb orb];
+        rewrite (bind_err _ _ _ _ _ H); reflexivity.
+  Qed.
+End ValueProc.
+
+(* ------------------------------------------------------------------ *)
+(** * C05 refinement, layer (i)+(ii): with_<a>(v, _inplace=True) on a scalar attribute *)
+
+Lemma invalidatees_none k a : no_inval k -> invalidatees k a = [].
+Proof.
+  intro H. unfold invalidatees. cbn [inval_close].
+  assert (E : forall l0, fold_left (fun l sp => if depends_on sp a && negb (in_names (a_name sp) ([a] ++ l))
+                                               then l ++ [a_name sp] else l) (c_attrs k) l0 = l0).
+  { unfold no_inval in H. revert H. generalize (c_attrs k). intro l. induction l as [|sp l IH]; intros H l0; cbn [fold_left]; auto.
+    assert (depends_on sp a = false) as -> by (unfold depends_on; rewrite (H sp) by (simpl; auto); reflexivity).
+    cbn [andb]. apply IH. intros; apply H; simpl; auto. }
+  rewrite E. cbn [app]. destruct (length (c_attrs k)); reflexivity.
+Qed.
+
+Lemma heap_ticked s : heap (ticked s) = heap s.
+Proof. reflexivity. Qed.
+Lemma heap_upd s l o : heap (upd s l o) = set_nth l o (heap s).
+Proof. reflexivity. Qed.
+
+Section WithScalar.
+  Variable ct : ctable.
+  Variable h0 : list obj.
+
+  Variables (l : loc) (a : aid) (c : cid) (d : list (aid * val)) (k : cls) (sp : attr_spec).
+  Variable s : state.
+  Hypothesis Hl : nth_error (heap s) l = Some (OInst c d).
+  Hypothesis Hc : lookup_cls ct c = Some k.
+  Hypothesis Ha : lookup_attr k a = Some sp.
+  Hypothesis Hd : NoDup (map fst d).
+  Hypothesis Hok : aok (absv (heap s) (VRef l)) = true.
+  Hypothesis Hfz : c_frozen k = false.
+  Hypothesis Hni : no_inval k.
+  Hypothesis Hfa : fail_at s = None.
+  Hypothesis Hty : ty_depth (a_ty sp) < FUEL.
+  Hypothesis Hnc : ty_is_collection (a_ty sp) = false.
+
+  Let flds := map (fun p => (fst p, abs 23 (heap s) (snd p))) (sorted_fields d).
+
+  Lemma Hok' : aok (abs (S 23) (heap s) (VRef l)) = true.
+  Proof. rewrite <- absv_unfold. exact Hok. Qed.
+
+  Lemma absv_recv : absv (heap s) (VRef l) = AInst c flds.
+  Proof. rewrite absv_unfold. now rewrite (abs_inst _ l c d 23 Hl). Qed.
+
+  Lemma a_name_sp : a_name sp = a.
+  Proof. unfold lookup_attr in Ha. apply find_some in Ha. destruct Ha as [_ E]. now apply Nat.eqb_eq in E. Qed.
+
+  (* the state after storing the proper scalar v' into attribute a *)
+  Lemma abs_after_store s1 v' :
+    heap s1 = heap s -> vscalar v' = true ->
+    absv (heap (upd s1 l (OInst c (assoc_set a v' d)))) (VRef l) = AInst c (fset a (abs0 v') flds).
+  Proof.
+    intros Hh Hv. rewrite heap_upd, Hh. rewrite absv_unfold.
+    rewrite (abs_inst_update (heap s) l c d 23 a v' Hl Hd Hok').
+    - rewrite (abs_nonref_eq 23 (heap s) v') by (now apply vscalar_nonref). reflexivity.
+    - intro o. rewrite !abs_nonref_eq by (now apply vscalar_nonref). reflexivity.
+  Qed.
+
+  (* the specification's store of a proper scalar *)
+  Lemma spec_store_scalar rec v' : vscalar v' = true ->
+    store ct rec (AInst c flds) sp (abs0 v') true =
+    if conforms ct (a_ty sp) (abs0 v') then SOk (AInst c (fset a (abs0 v') flds)) else SErr TypeErr.
+  Proof.
+    intro Hv. unfold store.
+    assert (a_is_sentinel (abs0 v') = false) as ->
+      by (destruct v'; cbn [vscalar] in Hv; try discriminate; reflexivity).
+    destruct (conforms ct (a_ty sp) (abs0 v')); cbn [negb]; auto.
+    rewrite a_name_sp. unfold invalidate, cls_for. rewrite Hc. cbn [sbind].
+    rewrite invalidatees_none by auto. reflexivity.
+  Qed.
+
+  (* the model's store of a proper scalar, in place *)
+  Lemma model_store_scalar rec s1 v' :
+    heap s1 = heap s -> vscalar v' = true ->
+    mutate_attr ct rec l a v' true true false false s1 =
+    if conforms ct (a_ty sp) (abs0 v')
+    then (Ok (VRef l), upd s1 l (OInst c (assoc_set a v' d))) else (Err TypeErr, s1).
+  Proof.
+    intros Hh Hv.
+    rewrite (mutate_attr_inplace_run ct rec l a v' true s1 c d k); auto.
+    - rewrite Ha, Hh. rewrite check_type_nonref by (auto using vscalar_nonref). reflexivity.
+    - now rewrite Hh.
+    - destruct v'; cbn [vscalar] in Hv; try discriminate; reflexivity.
+  Qed.
+
+  (* the in-place store of a proper scalar through with_<a> / assignment, for every
+     recursion budget S f of the dispatcher *)
+  Theorem with_gen_scalar_refines f0 v :
+    vscalar v = true ->
+    match a_prepare sp with Some f => scalar_fn f = true | None => True end ->
+    let ah := mkah [abs0 v] true true AMissing false None None [] None in
+    match with_inplace_gen ct (exec ct (S f0)) l a v s with
+    | (Ok r, s') => r = VRef l /\
+                    spec_helper ct h0 (absv (heap s) (VRef l)) (SWith a) ah = SOk (absv (heap s') (VRef l))
+    | (Err e, s') => spec_helper ct h0 (absv (heap s) (VRef l)) (SWith a) ah = SErr e /\ heap s' = heap s
+    end.
+  Proof.
+    intros Hv Hp ah.
+    (* the specification side *)
+    assert (Hspec : spec_helper ct h0 (absv (heap s) (VRef l)) (SWith a) ah =
+                    (pv <~ (match a_prepare sp with Some f => afn f (abs0 v) | None => SOk (abs0 v) end) ;;
+                     store ct (sexec ct h0 SFUEL) (AInst c flds) sp pv true)).
+    { rewrite absv_recv. unfold spec_helper, ah. cbn [ah_if negb mutates_in_place ah_inplace andb].
+      unfold frozen_class. rewrite Hc, Hfz. cbn [andb]. unfold spec_unfrozen, spec_with, cls_for.
+      rewrite Hc. cbn [sbind]. rewrite Ha. unfold apos0. cbn [ah_pos nth ah_kw].
+      unfold prepared. rewrite Hnc.
+      destruct (a_prepare sp) as [f|].
+      - destruct f as [|z|c0| | | |]; cbn [scalar_fn] in Hp; try discriminate;
+          [| |destruct c0; cbn [vscalar] in Hp; try discriminate];
+          destruct v as [| | | |[|]| | | |]; cbn [vscalar] in Hv; try discriminate; reflexivity.
+      - destruct v; cbn [vscalar] in Hv; try discriminate; reflexivity. }
+    (* the model side *)
+    unfold with_inplace_gen.
+    assert (Hsf : spec_for ct l a s = (Ok (k, sp), s)).
+    { unfold spec_for. rewrite (bind_ok _ _ _ _ _ (read_inst_at l s c d Hl)). cbn [fst].
+      rewrite (bind_ok _ _ _ _ _ (cls_of_at ct c s k Hc)). now rewrite Ha. }
+    rewrite (bind_ok _ _ _ _ _ Hsf). cbn [snd]. unfold prepare_attr_value.
+    rewrite Hnc. rewrite a_name_sp.
+    destruct (a_prepare sp) as [f|].
+    - pose proof (mutate_value_scalar_prep ct (exec ct f0) VMissing v false f (ctor_of_ty (a_ty sp)) (a_ty sp) false s Hfa Hp Hv) as Hm.
+      rewrite Hspec. destruct (afn f (abs0 v)) as [pv|e| |]; try contradiction.
+      + destruct Hm as [v' [Hm [-> Hv']]].
+        assert (E : (match v with VUnchanged => ret VUnchanged
+                     | _ => v0 <- exec ct (S f0) (KMutateValue (mkmv VMissing v false (PAttr f) None
+                                   (Some (ctor_of_ty (a_ty sp))) (Some (a_ty sp)) None [] false));; ret v0 end) s
+                    = (Ok v', ticked s)).
+        { destruct v; cbn [vscalar] in Hv; try discriminate; rewrite exec_S; cbn [body]; rewrite (bind_ok _ _ _ _ _ Hm); reflexivity. }
+        rewrite (bind_ok _ _ _ _ _ E). cbn [sbind].
+        rewrite (model_store_scalar _ (ticked s) v' (heap_ticked s) Hv'), spec_store_scalar by auto.
+        destruct (conforms ct (a_ty sp) (abs0 v')).
+        * split; auto. now rewrite (abs_after_store (ticked s) v' (heap_ticked s) Hv').
+        * split; auto.
+      + assert (E : (match v with VUnchanged => ret VUnchanged
+                     | _ => v0 <- exec ct (S f0) (KMutateValue (mkmv VMissing v false (PAttr f) None
+                                   (Some (ctor_of_ty (a_ty sp))) (Some (a_ty sp)) None [] false));; ret v0 end) s
+                    = (Err e, ticked s)).
+        { destruct v; cbn [vscalar] in Hv; try discriminate; rewrite exec_S; cbn [body]; rewrite (bind_err _ _ _ _ _ Hm); reflexivity. }
+        rewrite (bind_err _ _ _ _ _ E). cbn [sbind]. split; auto.
+    - assert (E : (match v with VUnchanged => ret VUnchanged
+                   | _ => v0 <- exec ct (S f0) (KMutateValue (mkmv VMissing v false PNone None
+                                 (Some (ctor_of_ty (a_ty sp))) (Some (a_ty sp)) None [] false));; ret v0 end) s
+                  = (Ok v, s)).
+      { destruct v; cbn [vscalar] in Hv; try discriminate; rewrite exec_S; cbn [body];
+          (erewrite bind_ok; [reflexivity|apply mutate_value_scalar; reflexivity]). }
+      rewrite (bind_ok _ _ _ _ _ E). rewrite Hspec. cbn [sbind].
+      rewrite (model_store_scalar _ s v eq_refl Hv), spec_store_scalar by auto.
+      destruct (conforms ct (a_ty sp) (abs0 v)).
+      + split; auto. now rewrite (abs_after_store s v eq_refl Hv).
+      + split; auto.
+  Qed.
+
+  (* with_<a>(v, _inplace=True) *)
+  Corollary with_scalar_inplace_refines v :
+    vscalar v = true ->
+    match a_prepare sp with Some f => scalar_fn f = true | None => True end ->
+    let h := mkh [v] true true VMissing false None None [] None in
+    let ah := mkah [abs0 v] true true AMissing false None None [] None in
+    match run_helper ct l (HWith a) h s with
+    | (Ok r, s') => r = VRef l /\
+                    spec_helper ct h0 (absv (heap s) (VRef l)) (SWith a) ah = SOk (absv (heap s') (VRef l))
+    | (Err e, s') => spec_helper ct h0 (absv (heap s) (VRef l)) (SWith a) ah = SErr e /\ heap s' = heap s
+    end.
+  Proof.
+    intros Hv Hp h ah. unfold h. rewrite run_helper_with_inplace, XFUEL_S.
+    exact (with_gen_scalar_refines 39 v Hv Hp).
+  Qed.
+
+  (* obj.a = v : the same specification (SSetAttrOp is specified as with_<a> in place) *)
+  Corollary setattr_scalar_refines roots x v :
+    nth x roots VNone = VRef l ->
+    vscalar v = true ->
+    match a_prepare sp with Some f => scalar_fn f = true | None => True end ->
+    let ah := mkah [abs0 v] true true AMissing false None None [] None in
+    match step ct roots (OpSetAttr x a v) s with
+    | (Ok r, s') => spec_helper ct h0 (absv (heap s) (VRef l)) (SSetAttrOp a) ah = SOk (absv (heap s') (VRef l))
+    | (Err e, s') => spec_helper ct h0 (absv (heap s) (VRef l)) (SSetAttrOp a) ah = SErr e /\ heap s' = heap s
+    end.
+  Proof.
+    intros Hx Hv Hp ah. rewrite (step_setattr ct roots x a v l s Hx).
+    assert (Hman : forall c0 d0 k0, nth_error (heap s) l = Some (OInst c0 d0) -> lookup_cls ct c0 = Some k0 ->
+                                    lookup_attr k0 a <> None).
+    { intros c0 d0 k0 E1 E2. rewrite Hl in E1. inversion E1; subst. rewrite Hc in E2. inversion E2; subst.
+      rewrite Ha. discriminate. }
+    unfold bind. rewrite (setattr_is_with_inplace ct (exec ct 39) l a v s Hman).
+    pose proof (with_gen_scalar_refines 38 v Hv Hp) as H. cbv zeta in H.
+    assert (Hsame : spec_helper ct h0 (absv (heap s) (VRef l)) (SSetAttrOp a) ah =
+                    spec_helper ct h0 (absv (heap s) (VRef l)) (SWith a) ah).
+    { rewrite absv_recv. unfold spec_helper, ah. cbn [ah_if negb mutates_in_place ah_inplace andb].
+      unfold frozen_class. rewrite Hc, Hfz. reflexivity. }
+    rewrite Hsame.
+    destruct (with_inplace_gen ct (exec ct 39) l a v s) as [[r|e] s']; [destruct H as [_ H]|]; exact H.
+  Qed.
+End WithScalar.
